@@ -30,11 +30,9 @@ ASSUMPTIONS = ["scdaemon keeps ONE stored SETDATA value per connection and PKSIG
                "a daemon that ends its output does so by shutting down its sending side; the client's writes still succeed (the scripted daemon "
                "keeps reading): outcomes then do not depend on scheduling",
                "net/url PathEscape / PathUnescape are modelled from the Go 1.23 source (Relic.Assuan.pathEscape / pathUnescape); the esc ops tie the model to the linked stdlib"]
-UNPROVED = {"C07": ["scd_getkey_total_full (refuted: scd_getkey_nil_deref, finding F-SCD-1)"],
-            "C11": ["scd_client_no_panic_full (refuted by the same nil dereference: scd_getkey_nil_deref_c11)",
-                    "file_getkey_total_full (refuted: file_empty_keyfile_panics, file_encrypted_pgp_nil_prompt_panics, file_pkcs12_nil_prompt_panics, "
-                    "file_non_signer_key_panics; findings F-FILE-1..4; file_getkey_total_partial is what holds)",
-                    "assuan_transact_returns_full (refuted: assuan_read_blocks_on_silent_daemon, finding F-SCD-3)"],
+UNPROVED = {"C07": [],   # scd_getkey_total is a theorem since e11c4f9 (scd_getkey_total_orig_full: refuted, about the code before it)
+            "C11": ["assuan_transact_returns_full (refuted: assuan_read_blocks_on_silent_daemon, finding F-SCD-3)"],
+            # scd_client_no_panic / file_getkey_total are theorems since e11c4f9 / 3202f4d (the *_orig_full statements are refuted, about the code before)
             "C14": [], "C15": ["scd_sign_context_honours_cancel_full (refuted: SignContext ignores its context; finding F-SCD-3)"]}
 
 NIL_SITE = "panic:scdtoken.GetKey:key.KeyId_(nil_key)"
@@ -180,10 +178,12 @@ def predicate(prop, op, il, mres, tag):
         answers = 0 if g in ("none", "-") else len(g.split("."))
         if m and int(m.group(1)) > answers + 2:
             return ("Relic.Props.C11.file_key_prompts_bounded", "at most %d GetPasswd calls" % (answers + 2), il[:200])
+        if m and g == "none" and int(m.group(1)) != 0:
+            return ("Relic.Props.C11.file_no_getter_no_prompt", "prompts=0", il[:200])
         if il.startswith("panic:") or il.startswith("panic ") or il.startswith("crash"):
             site = il.split(" ")[0][len("panic:"):]
-            return ("Relic.Props.C11.file_getkey_total_full", "an error (\"… key file …\")",
-                    "filetoken.GetKey panics on %s: %s" % (FTOK_SITES.get(site, "?"), il[:200]))
+            return ("Relic.Props.C11.file_getkey_total", "an error (\"… key file …\")",
+                    "filetoken.GetKey panics on %s (F-FILE-1..4, fixed by 3202f4d: the fix is missing?): %s" % (FTOK_SITES.get(site, "?"), il[:200]))
         return None
     if kind in ("csexp", "esc"):
         if il.startswith("panic") or il.startswith("crash") or il.startswith("diverge"):
@@ -200,8 +200,9 @@ def predicate(prop, op, il, mres, tag):
         for r in [io] + ires:
             if r.startswith("panic:"):
                 if r == NIL_SITE:
-                    thm = {"C07": "Relic.Props.C07.scd_getkey_total_full", "C11": "Relic.Props.C11.scd_client_no_panic_full"}.get(prop, "Relic.Props.C11.scd_client_no_panic_full")
-                    return (thm, "err:notfound (\"key … not found in token …\")", "scdToken.GetKey dereferences a nil *ScdKey when no key info matches the configured id: " + r)
+                    thm = {"C07": "Relic.Props.C07.scd_getkey_total"}.get(prop, "Relic.Props.C11.scd_client_no_panic")
+                    return (thm, "err:notfound (\"key … not found in token …\")", "scdToken.GetKey dereferences a nil *ScdKey when no key info matches the configured id "
+                            "(F-SCD-1, fixed by e11c4f9: the fix is missing): " + r)
                 return ("Relic.Props.C11.assuan_read_no_panic", "a result or an error", r)
         # --- no hang (C11 / C15; a silent daemon is the listed finding F-SCD-3)
         if io == "block" or "block" in ires:
@@ -277,33 +278,19 @@ def predicate(prop, op, il, mres, tag):
 
 
 def matches_known(k, op, il, mres, tag):
-    """F-SCD-1 (nil dereference in scdToken.GetKey) and F-SCD-3 (client blocks on a silent daemon): model and implementation
-    agree on the whole line, and every anomaly in it is one of those two sites."""
+    """F-SCD-3 (client blocks on a silent daemon): model and implementation agree on the whole line, it contains `block`, and nothing in it
+    panics.  (F-SCD-1 and F-FILE-1..4 are fixed: their panics are violations.)"""
     site = k.get("identity", {}).get("site", "")
-    f = op.split(" ")
-    if len(f) > 1 and f[1] == "ftok":
-        # F-FILE-1..4: the same panic site in model and implementation, and it is the site of this entry
-        return site in FTOK_SITES and il == mres and il.split(" ")[0] == "panic:" + site
-    if site not in ("scdtoken.GetKey:nil-key", "assuan.Conn.readLine:no-deadline"):
+    if site != "assuan.Conn.readLine:no-deadline":
         return False
-    if len(f) < 2 or f[1] not in ("seq", "hostile", "conc"):
+    f = op.split(" ")
+    if len(f) < 2 or f[1] != "hostile":
         return False
     if not equiv(op, il, mres):
         return False
     io, ires, _, _ = _parse(il)
     anomalies = [r for r in [io] + ires if r.startswith("panic:") or r == "block"]
-    if not anomalies:
-        return False
-    if any(a != NIL_SITE and a != "block" for a in anomalies):
-        return False
-    if site == "scdtoken.GetKey:nil-key":
-        if NIL_SITE not in anomalies:
-            return False
-        # the trigger: some g step names a key whose configured id matches no key of the token (checked on the op, not on the output)
-        return True
-    if "block" not in anomalies:
-        return False
-    return f[1] == "hostile"
+    return bool(anomalies) and all(a == "block" for a in anomalies)
 
 
 def second(ctx, prop, cov, findings, known):
